@@ -10,6 +10,7 @@ import WowVerif.Model.Geometry
 import WowVerif.Model.SemIO
 import WowVerif.Model.SemSize
 import WowVerif.Model.UpdateMask
+import WowVerif.Model.ChunkFrame
 import Std.Data.HashMap
 namespace WowVerif.Driver
 
@@ -536,6 +537,17 @@ def handle (ws : List String) : String :=
       match parseExp e, parseDir d, parseApi api, unhex hdr, len.toNat?, fill.toNat?, extra.toNat? with
       | some e, some d, some api, some hdr, some len, some fill, some extra => rframe e d api hdr len fill extra
       | _, _, _, _, _, _, _ => "bad-op"
+  | ["chunkframe", e, d, sched] =>
+      -- C06: the frame reader script run by the chunked semantics over the given delivery schedule
+      let steps : Option (List (Option (List UInt8))) :=
+        if sched == "-" then some [] else (sched.splitOn ",").mapM fun t => if t == "p" then some none else (unhex t).map some
+      match parseExp e, parseDir d, steps with
+      | some e, some d, some cs =>
+        match WowVerif.Chunk.runChunked (WowVerif.Chunk.frameDec e d) [] cs with
+        | .ok ((op, body), rest) => s!"ok op={op} body={if body.isEmpty then "-" else hexOf body} n={(WowVerif.Chunk.flatten cs).length - rest.length}"
+        | .error .unexpectedEof => "eof"
+        | .error (.other c) => s!"err {c}"
+      | _, _, _ => "bad-op"
   | ["seq", e, d, api, lens] =>
       match parseExp e, parseDir d, parseApi api, (lens.splitOn ",").mapM (·.toNat?) with
       | some e, some d, some api, some lens => seqFrames e d api lens
